@@ -35,12 +35,24 @@ class KResult:
         self.inconclusive = []
         self.flags = []
         self.canary = None
+        self.config = {}
+        self.realisable = []      # constraints a counterexample should satisfy to be expressible as a plotfile (distinct field choices ...)
+
+    def fail(self, ctx, text, claim=None):
+        from harness import k_replay
+        model = None
+        try:
+            c = claim if claim is not None else z3.BoolVal(False)
+            model = k_replay.small_model(ctx, c, self.realisable) or k_replay.small_model(ctx, c)
+        except Exception:
+            model = None
+        self.failed.append({'what': text, 'model': model, 'config': dict(self.config)})
 
     def as_dict(self):
         status = 'holds' if not self.failed and not self.inconclusive and not self.flags else ('violated' if self.failed else 'inconclusive')
         return {'lemma': self.name, 'status': status, 'functions': self.functions, 'bounds': self.bounds, 'paths': self.paths,
                 'queries': self.queries, 'solver_seconds': round(self.solver_s, 3), 'obligations': self.obligations, 'discharged': self.discharged,
-                'failed': [f[:300] for f in self.failed[:3]], 'inconclusive': self.inconclusive[:3], 'flags': self.flags[:3], 'canary_fired': self.canary}
+                'failed': [(f['what'] if isinstance(f, dict) else f)[:300] for f in self.failed[:3]], 'inconclusive': self.inconclusive[:3], 'flags': self.flags[:3], 'canary_fired': self.canary}
 
 
 def prove(ctx, kr, what, claim, timeout_ms=20000):
@@ -72,7 +84,7 @@ def prove(ctx, kr, what, claim, timeout_ms=20000):
         kr.discharged += 1
         return True
     if r == 'sat':
-        kr.failed.append('%s; counterexample: %s' % (what, short_model(model)))
+        kr.fail(ctx, '%s; counterexample: %s' % (what, short_model(model)), claim)
         return False
     kr.inconclusive.append(what)
     return False
@@ -108,7 +120,7 @@ def side_obligations(ctx, kr, view, what):
 def shape_equal(ctx, kr, got, want, what):
     if len(got) != len(want):
         kr.obligations += 1
-        kr.failed.append('%s: rank %d, expected %d' % (what, len(got), len(want)))
+        kr.fail(ctx, '%s: rank %d, expected %d' % (what, len(got), len(want)))
         return False
     ok = True
     for d, (g, w) in enumerate(zip(got, want)):
@@ -126,7 +138,7 @@ def run_lemma(kr, fn, max_paths=200):
         r = fn(ctx)
         if ctx.flags and len(kr.failed) > n0:
             # what happens on a path the engine could not follow faithfully is not a verdict
-            kr.inconclusive.extend('on a flagged path: ' + f[:120] for f in kr.failed[n0:])
+            kr.inconclusive.extend('on a flagged path: ' + (f['what'] if isinstance(f, dict) else f)[:120] for f in kr.failed[n0:])
             del kr.failed[n0:]
         return r
     results, exhaustive, stats = core.explore(guarded, max_paths=max_paths, timeout_ms=20000)
@@ -157,6 +169,7 @@ def k_read(rep):
         for variant in ('single', 'slice', 'list'):
             for canary in (False, True):
                 def path(ctx, nd=nd, variant=variant, canary=canary):
+                    kr.config = {'nd': nd, 'variant': variant, 'canary': canary}
                     before = KFab('pre', nd, ctx, max_nf=8)
                     fab = KFab('fab', nd, ctx, max_nf=4096 if variant == 'single' else 5)
                     kf = KFile('f', [before, fab], start0=0)
@@ -192,7 +205,7 @@ def k_read(rep):
                             out = pc.mp_read_box_index_field(('file', S(fab.start), farg))
                     if not isinstance(out, LV):
                         kr.obligations += 1
-                        kr.failed.append('K-read %s %dD: returned %s' % (variant, nd, type(out).__name__))
+                        kr.fail(ctx, 'K-read %s %dD: returned %s' % (variant, nd, type(out).__name__))
                         return
                     what = 'K-read %s %dD' % (variant, nd)
                     if variant == 'single':
@@ -255,6 +268,7 @@ def k_scan(rep):
                     continue
                 for canary in ((False, True) if (m == 2 and variant == 'single') else (False,)):
                     def path(ctx, nd=nd, m=m, variant=variant, canary=canary):
+                        kr.config = {'nd': nd, 'm': m, 'variant': variant, 'canary': canary}
                         kf, fabs = make_file(ctx, m, nd, max_nf=4096 if variant == 'single' else 4)
                         kfs = KFS()
                         kfs.add('file', kf)
@@ -279,7 +293,7 @@ def k_scan(rep):
                         what = 'K-scan %s %dD m=%d' % (variant, nd, m)
                         kr.obligations += 1
                         if not isinstance(out, list) or len(out) != m or not all(isinstance(o, LV) for o in out):
-                            kr.failed.append('%s: yielded %s arrays for %d FABs' % (what, len(out) if isinstance(out, list) else type(out).__name__, m))
+                            kr.fail(ctx, '%s: yielded %s arrays for %d FABs' % (what, len(out) if isinstance(out, list) else type(out).__name__, m))
                             return
                         kr.discharged += 1
                         for k, (o, fab) in enumerate(zip(out, fabs)):
@@ -334,6 +348,7 @@ def k_taste_good(rep):
         for m in (1, 2, 3):
             for order in itertools.permutations(range(m)):
                 def path(ctx, nd=nd, m=m, order=order):
+                    kr.config = {'nd': nd, 'm': m, 'order': order}
                     kf, fabs = make_file(ctx, m, nd)
                     kfs = KFS()
                     kfs.add('file', kf)
@@ -344,7 +359,7 @@ def k_taste_good(rep):
                     if r1 is None and r2 is None:
                         kr.discharged += 1
                     else:
-                        kr.failed.append('K-taste-good %dD m=%d order %s: a well-formed file is reported bad on a feasible path: %s' % (nd, m, order, str(r1 or r2)[:120]))
+                        kr.fail(ctx, 'K-taste-good %dD m=%d order %s: a well-formed file is reported bad on a feasible path: %s' % (nd, m, order, str(r1 or r2)[:120]))
                 run_lemma(kr, path)
     rep.kernel_lemmas.append(kr.as_dict())
     merge(rep, kr)
@@ -369,6 +384,7 @@ def k_taste_bad(rep):
             cases.append(('offset', m, k))
     for kind, m, k in cases:
         def path(ctx, kind=kind, m=m, k=k):
+            kr.config = {'kind': kind, 'm': m, 'k': k}
             fabs = [KFab('f%d' % j, nd, ctx) for j in range(m)]
             for f in fabs[1:]:
                 f.nf = fabs[0].nf
@@ -424,7 +440,7 @@ def k_taste_bad(rep):
             if r1 is not None or r2 is not None or raised is not None:
                 kr.discharged += 1
             else:
-                kr.failed.append('K-taste-bad %s m=%d k=%s: the damaged file passes both workers; %s' % (kind, m, k, short_model(ctx.model())))
+                kr.fail(ctx, 'K-taste-bad %s m=%d k=%s: the damaged file passes both workers; %s' % (kind, m, k, short_model(ctx.model())))
         run_lemma(kr, path)
     rep.kernel_lemmas.append(kr.as_dict())
     merge(rep, kr)
@@ -449,6 +465,7 @@ def k_strain(rep):
                 for nk in ((1, 2, 3) if m == 1 else (2,)):
                     for canary in ((False, True) if (m == 2 and order == (1, 0)) else (False,)):
                         def path(ctx, nd=nd, m=m, order=order, nk=nk, canary=canary):
+                            kr.config = {'nd': nd, 'm': m, 'order': order, 'nk': nk, 'canary': canary}
                             kf, fabs = make_file(ctx, m, nd)
                             kfs = KFS()
                             kfs.add('in', kf)
@@ -459,6 +476,7 @@ def k_strain(rep):
                                 ctx.assume(c.t >= 0)
                                 ctx.assume(c.t < nf.t)
                                 kept.append(c)
+                            kr.realisable = [a.t != b.t for i, a in enumerate(kept) for b in kept[i + 1:]]
                             args = {'bfile_r': 'in', 'bfile_w': 'out', 'box_indexes': [[npfacade.objarr(list(fabs[k].lo)), npfacade.objarr(list(fabs[k].hi))] for k in order],
                                     'cell_indexes': list(order), 'offsets_r': [S(fabs[k].start) for k in order], 'nvars': nf, 'kept_fields': kept, 'ncells': m}
                             with kpatched(mods, kfs), common.quiet():
@@ -467,14 +485,14 @@ def k_strain(rep):
                             out = kfs.files.get('out')
                             kr.obligations += 1
                             if out is None or len(out.writes) != 2 * m or not isinstance(offs, list) or len(offs) != m:
-                                kr.failed.append('%s: %s writes, %s offsets' % (what, len(out.writes) if out else None, len(offs) if isinstance(offs, list) else offs))
+                                kr.fail(ctx, '%s: %s writes, %s offsets' % (what, len(out.writes) if out else None, len(offs) if isinstance(offs, list) else offs))
                                 return
                             kr.discharged += 1
                             for j, k in enumerate(order):
                                 hdr, reg = out.writes[2 * j], out.writes[2 * j + 1]
                                 if hdr[0] != 'hdr' or reg[0] != 'region' or len(reg[2].parts) != 1:
                                     kr.obligations += 1
-                                    kr.failed.append('%s: box %d is not written as header + one region' % (what, j))
+                                    kr.fail(ctx, '%s: box %d is not written as header + one region' % (what, j))
                                     return
                                 prove(ctx, kr, '%s: returned offset %d is where the header was written' % (what, j), I(offs[j]) == hdr[1])
                                 # the rewritten header names the same index range and the kept count
@@ -483,7 +501,7 @@ def k_strain(rep):
                                 if hdr[2] == want_h:
                                     kr.discharged += 1
                                 else:
-                                    kr.failed.append('%s: header of box %d is %r, expected %r' % (what, j, hdr[2][-60:], want_h[-60:]))
+                                    kr.fail(ctx, '%s: header of box %d is %r, expected %r' % (what, j, hdr[2][-60:], want_h[-60:]))
                                 view = reg[2].parts[0]
                                 side_obligations(ctx, kr, view, what)
                                 want_shape = tuple(fabs[k].n) + (nk,)
@@ -552,6 +570,7 @@ def k_combine(rep):
             for order2 in orders:
                 for canary in ((False, True) if (m == 2 and order2 == tuple(range(m))[::-1] or m == 2 and worker == 'byfile') else (False,)):
                     def path(ctx, worker=worker, m=m, order2=order2, canary=canary):
+                        kr.config = {'worker': worker, 'm': m, 'order2': order2, 'canary': canary}
                         fabs1 = [KFab('a%d' % k, nd, ctx) for k in range(m)]
                         for f in fabs1[1:]:
                             f.nf = fabs1[0].nf
@@ -564,6 +583,7 @@ def k_combine(rep):
                         kfs.add('in2', kf2)
                         v1 = sym_comps(ctx, 'v1_', 2, fabs1[0].nf)
                         v2 = sym_comps(ctx, 'v2_', 1, tw[0].nf)
+                        kr.realisable = [v1[0].t != v1[1].t]
                         if worker == 'byfile':
                             args = {'bfile_r1': 'in1', 'bfile_r2': 'in2', 'bfile_w': 'out', 'vidxs1': v1, 'vidxs2': v2}
                             with kpatched(mods, kfs), common.quiet():
@@ -576,14 +596,14 @@ def k_combine(rep):
                         out = kfs.files.get('out')
                         kr.obligations += 1
                         if out is None or len(out.writes) != 2 * m or not isinstance(offs, list) or len(offs) != m:
-                            kr.failed.append('%s: %s writes, %s offsets' % (what, len(out.writes) if out else None, len(offs) if isinstance(offs, list) else offs))
+                            kr.fail(ctx, '%s: %s writes, %s offsets' % (what, len(out.writes) if out else None, len(offs) if isinstance(offs, list) else offs))
                             return
                         kr.discharged += 1
                         for k in range(m):
                             hdr, reg = out.writes[2 * k], out.writes[2 * k + 1]
                             if hdr[0] != 'hdr' or reg[0] != 'region' or len(reg[2].parts) != 2:
                                 kr.obligations += 1
-                                kr.failed.append('%s: box %d is not written as header + two regions' % (what, k))
+                                kr.fail(ctx, '%s: box %d is not written as header + two regions' % (what, k))
                                 return
                             prove(ctx, kr, '%s: returned offset %d is where the header was written' % (what, k), I(offs[k]) == hdr[1])
                             want_h = fabs1[k].header(nf=3)
@@ -591,12 +611,12 @@ def k_combine(rep):
                             if hdr[2] == want_h:
                                 kr.discharged += 1
                             else:
-                                kr.failed.append('%s: header of box %d is %r, expected %r' % (what, k, hdr[2][-70:], want_h[-70:]))
+                                kr.fail(ctx, '%s: header of box %d is %r, expected %r' % (what, k, hdr[2][-70:], want_h[-70:]))
                             for side, (part, src, comps, kfile) in enumerate(zip(reg[2].parts, (fabs1[k], tw[k]), (v1, v2), (kf1, kf2))):
                                 side_obligations(ctx, kr, part, what)
                                 kr.obligations += 1
                                 if part.file is not kfile:
-                                    kr.failed.append('%s: box %d side %d comes from the other input' % (what, k, side))
+                                    kr.fail(ctx, '%s: box %d side %d comes from the other input' % (what, k, side))
                                     continue
                                 kr.discharged += 1
                                 want_shape = tuple(src.n) + (len(comps),)
@@ -630,6 +650,7 @@ def k_whip(rep):
     for m in (1, 2, 3):
         for canary in ((False, True) if m == 2 else (False,)):
             def path(ctx, m=m, canary=canary):
+                kr.config = {'m': m, 'canary': canary}
                 kf, fabs = make_file(ctx, m, nd)
                 kfs = KFS()
                 kfs.add('file', kf)
@@ -642,7 +663,7 @@ def k_whip(rep):
                 what = 'K-whip m=%d' % m
                 kr.obligations += 1
                 if len(arrays) != m or len(indexes) != m or not all(isinstance(a, LV) for a in arrays):
-                    kr.failed.append('%s: %d arrays / %d index pairs for %d FABs' % (what, len(arrays), len(indexes), m))
+                    kr.fail(ctx, '%s: %d arrays / %d index pairs for %d FABs' % (what, len(arrays), len(indexes), m))
                     return
                 kr.discharged += 1
                 for k, (a, ix, fab) in enumerate(zip(arrays, indexes, fabs)):
@@ -682,6 +703,7 @@ def k_ghost(rep):
         for do_gradp, do_ir in ((True, True), (True, False), (False, False)):
             for canary in ((False, True) if (m == 2 and do_gradp and do_ir) else (False,)):
                 def path(ctx, m=m, do_gradp=do_gradp, do_ir=do_ir, canary=canary):
+                    kr.config = {'m': m, 'do_gradp': do_gradp, 'do_ir': do_ir, 'canary': canary}
                     g = core.integer('ghost')
                     ctx.assume(g.t >= 1)
                     ctx.assume(g.t <= 8)
@@ -708,6 +730,7 @@ def k_ghost(rep):
                     ir = twin_file(ctx, inner, 'ir', max_nf=64)
                     kgp = KFile('gradp', gp[::-1])        # other on-disk order, located by offset
                     kir = KFile('I_R', ir)
+                    kr.realisable = [inner[0].nf.t == 7 + ir[0].nf.t]
                     kfs = KFS()
                     kfs.add('state', kst)
                     kfs.add('gradp', kgp)
@@ -721,14 +744,14 @@ def k_ghost(rep):
                     out = kfs.files.get('out')
                     kr.obligations += 1
                     if out is None or len(out.writes) != 2 * m or len(offs) != m:
-                        kr.failed.append('%s: %s writes, %s offsets' % (what, len(out.writes) if out else None, len(offs)))
+                        kr.fail(ctx, '%s: %s writes, %s offsets' % (what, len(out.writes) if out else None, len(offs)))
                         return
                     kr.discharged += 1
                     for k in range(m):
                         hdr, reg = out.writes[2 * k], out.writes[2 * k + 1]
                         if hdr[0] != 'hdr' or reg[0] != 'region' or len(reg[2].parts) != 1:
                             kr.obligations += 1
-                            kr.failed.append('%s: box %d is not written as header + one region' % (what, k))
+                            kr.fail(ctx, '%s: box %d is not written as header + one region' % (what, k))
                             return
                         prove(ctx, kr, '%s: returned offset %d is where the header was written' % (what, k), I(offs[k]) == hdr[1])
                         view = reg[2].parts[0]
@@ -773,6 +796,7 @@ def k_expand(rep):
     for f in (1, 2, 4, 8):
         for canary in ((False, True) if f == 2 else (False,)):
             def path(ctx, f=f, canary=canary):
+                kr.config = {'f': f, 'canary': canary}
                 n = [core.integer('n%d' % d) for d in range(2)]
                 for x in n:
                     ctx.assume(x.t >= 1)
@@ -784,7 +808,7 @@ def k_expand(rep):
                 what = 'K-expand 2D factor %d' % f
                 if not isinstance(exp, LV):
                     kr.obligations += 1
-                    kr.failed.append('%s: returned %s' % (what, type(exp).__name__))
+                    kr.fail(ctx, '%s: returned %s' % (what, type(exp).__name__))
                     return
                 side_obligations(ctx, kr, exp, what)
                 want_shape = (S(n[0].t * f), S(n[1].t * f))
@@ -803,6 +827,7 @@ def k_expand(rep):
             run_lemma(kr, path)
 
             def path3(ctx, f=f):
+                kr.config = {'f': f}
                 n = [core.integer('n%d' % d) for d in range(3)]
                 for x in n:
                     ctx.assume(x.t >= 1)
@@ -814,7 +839,7 @@ def k_expand(rep):
                 what = 'K-expand 3D factor %d' % f
                 if not isinstance(exp, LV):
                     kr.obligations += 1
-                    kr.failed.append('%s: returned %s' % (what, type(exp).__name__))
+                    kr.fail(ctx, '%s: returned %s' % (what, type(exp).__name__))
                     return
                 side_obligations(ctx, kr, exp, what)
                 want_shape = tuple(S(n[d].t * f) for d in range(3))
@@ -842,6 +867,7 @@ def k_pestle(rep):
     for use_vol in (False, True):
         for which in (0, 1):
             def path(ctx, use_vol=use_vol, which=which):
+                kr.config = {'use_vol': use_vol, 'which': which}
                 kf, fabs = make_file(ctx, 2, 3)
                 kfs = KFS()
                 kfs.add('file', kf)
@@ -863,7 +889,7 @@ def k_pestle(rep):
                 collect(r)
                 kr.obligations += 1
                 if len(views) != (2 if use_vol else 1):
-                    kr.failed.append('%s: the result combines %d views' % (what, len(views)))
+                    kr.fail(ctx, '%s: the result combines %d views' % (what, len(views)))
                     return
                 kr.discharged += 1
                 for v, comp in zip(views, [ci] + ([cv] if use_vol else [])):
@@ -894,6 +920,7 @@ def k_chunk(rep):
         configs = [(1, 1, 1, 512), (3, 1, 2, 512), (11, 1, 1, 512)]
     for nbox, nfid, factor, syv, canary in [c + (False,) for c in configs] + [(3, 1, 2, 512, True)]:
         def path(ctx, nbox=nbox, nfid=nfid, factor=factor, syv=syv, canary=canary):
+            kr.config = {'nbox': nbox, 'nfid': nfid, 'factor': factor, 'syv': syv, 'canary': canary}
             # boxes side by side along x in the level's index space; x extents symbolic, y extent concrete (keeps the
             # written size linear in the symbols, so the file-count arithmetic is decided by linear integer arithmetic)
             sx = [core.integer('sx%d' % b) for b in range(nbox)]
@@ -926,18 +953,18 @@ def k_chunk(rep):
                     mm.Mandoline.write_cell_data_at_level(st, 'out', 0, lvdata, list(range(nbox)))
                 except Exception as e:
                     kr.obligations += 1
-                    kr.failed.append('K-chunk n=%d: raised %s: %s; %s' % (nbox, type(e).__name__, str(e)[:80], short_model(ctx.model())))
+                    kr.fail(ctx, 'K-chunk n=%d: raised %s: %s; %s' % (nbox, type(e).__name__, str(e)[:80], short_model(ctx.model())))
                     return
             what = 'K-chunk n=%d fields=%d factor=%d' % (nbox, nfid, factor)
             text = kfs.texts.get('out/Level_0/Cell_H')
             kr.obligations += 1
             if text is None:
-                kr.failed.append('%s: no Cell_H written' % what)
+                kr.fail(ctx, '%s: no Cell_H written' % what)
                 return
             lines = text.s.split('\n')
             fab_lines = [l.split() for l in lines if l.startswith('FabOnDisk:')]
             if len(fab_lines) != nbox:
-                kr.failed.append('%s: %d FabOnDisk lines for %d boxes; %s' % (what, len(fab_lines), nbox, short_model(ctx.model())))
+                kr.fail(ctx, '%s: %d FabOnDisk lines for %d boxes; %s' % (what, len(fab_lines), nbox, short_model(ctx.model())))
                 return
             kr.discharged += 1
             # the boxes as written, file by file
@@ -946,13 +973,13 @@ def k_chunk(rep):
                 w = kfs.files[fname].writes
                 if len(w) % 2:
                     kr.obligations += 1
-                    kr.failed.append('%s: odd number of writes in %s' % (what, fname))
+                    kr.fail(ctx, '%s: odd number of writes in %s' % (what, fname))
                     return
                 for q in range(0, len(w), 2):
                     written.append((fname.split('/')[-1], w[q], w[q + 1]))
             kr.obligations += 1
             if len(written) != nbox:
-                kr.failed.append('%s: %d boxes written for %d boxes in the plane; %s' % (what, len(written), nbox, short_model(ctx.model())))
+                kr.fail(ctx, '%s: %d boxes written for %d boxes in the plane; %s' % (what, len(written), nbox, short_model(ctx.model())))
                 return
             kr.discharged += 1
             for b in range(nbox):
@@ -961,19 +988,19 @@ def k_chunk(rep):
                           % (cells['indexes'][b][0][0], cells['indexes'][b][0][1], cells['indexes'][b][1][0], cells['indexes'][b][1][1], nfid)).encode()
                 kr.obligations += 1
                 if hdr[0] != 'hdr' or hdr[2] != want_h:
-                    kr.failed.append('%s: box %d header is %r' % (what, b, hdr[2][-50:] if hdr[0] == 'hdr' else hdr[0]))
+                    kr.fail(ctx, '%s: box %d header is %r' % (what, b, hdr[2][-50:] if hdr[0] == 'hdr' else hdr[0]))
                     continue
                 kr.discharged += 1
                 kr.obligations += 1
                 if fab_lines[b][1] != fname:
-                    kr.failed.append('%s: box %d is listed in %s but written to %s' % (what, b, fab_lines[b][1], fname))
+                    kr.fail(ctx, '%s: box %d is listed in %s but written to %s' % (what, b, fab_lines[b][1], fname))
                     continue
                 kr.discharged += 1
                 off = klv.kint(fab_lines[b][2])
                 prove(ctx, kr, '%s: recorded offset of box %d is where its header was written' % (what, b), I(off) == hdr[1])
                 if reg[0] != 'region' or len(reg[2].parts) != nfid:
                     kr.obligations += 1
-                    kr.failed.append('%s: box %d data is not %d flattened views' % (what, b, nfid))
+                    kr.fail(ctx, '%s: box %d data is not %d flattened views' % (what, b, nfid))
                     continue
                 for f, part in enumerate(reg[2].parts):
                     side_obligations(ctx, kr, part, what)
@@ -1012,8 +1039,18 @@ def merge(rep, kr):
     if kr.canary is not None:
         rep.canaries += 1
         rep.canaries_fired += 1 if kr.canary else 0
+    from harness import k_replay
+    tried = 0
     for f in kr.failed:
-        rep.violations.append({'signature': '%s/%s' % (rep.pid, kr.name), 'what': f[:400], 'replay': None, 'klemma': True})
+        if tried >= 2:
+            break
+        tried += 1
+        status, info = k_replay.confirm(rep, kr, f)
+        sig = '%s/%s' % (rep.pid, kr.name)
+        if status == 'reproduced':
+            rep.violations.append({'signature': sig, 'what': (f['what'])[:400] + ' [confirmed through the public API on a plotfile with the counterexample\'s box shapes]', 'replay': info, 'klemma': True})
+            break
+        rep.unreproduced.append({'signature': sig, 'what': f['what'][:300], 'replay_status': status, 'replay_output': str(info)[-400:], 'model': {k: v for k, v in (f.get('model') or {}).items() if not k.startswith(('dm_', 'wlen', 'q'))}})
     for f in kr.flags:
         rep.flag_reasons[f[:80]] = rep.flag_reasons.get(f[:80], 0) + 1
 
